@@ -248,3 +248,57 @@ Proof.
   - rewrite skipn_app, Nat.sub_diag, skipn_all. reflexivity.
   - rewrite app_length, Nnat.Nat2N.inj_add, (msg_size_eq_length S tid v H). reflexivity.
 Qed.
+
+(* ---------- finishSpeculativeLength ---------- *)
+Lemma msg_overwrite_mid (pre old src post : list byte) :
+  length old = length src -> msg_overwrite (pre ++ old ++ post) (length pre) src = pre ++ src ++ post.
+Proof.
+  intros H. unfold msg_overwrite.
+  rewrite firstn_app, Nat.sub_diag, firstn_all. cbn [firstn]. rewrite app_nil_r. f_equal. f_equal.
+  rewrite skipn_app. rewrite skipn_all2 by lia.
+  replace (length pre + length src - length pre)%nat with (length old) by lia.
+  cbn [app]. rewrite skipn_app, Nat.sub_diag, skipn_all. reflexivity.
+Qed.
+
+Theorem msg_finish_spec_ok (pre body : list byte) :
+  N.of_nat (length body) < 2^64 ->
+  msg_finish_spec (fst (msg_append_spec pre) ++ body) (snd (msg_append_spec pre)) =
+  pre ++ enc_varint (N.of_nat (length body)) ++ body.
+Proof.
+  intros Hlen. cbn [msg_append_spec fst snd]. unfold msg_finish_spec.
+  rewrite !app_length. cbn [length].
+  replace (length pre + 1 + length body - length pre - 1)%nat with (length body) by lia.
+  pose proof (msgw_enc_varint_length _ Hlen) as Hsz.
+  set (enc := enc_varint (N.of_nat (length body))) in *.
+  assert (Hmsiz : N.to_nat (size_varint (N.of_nat (length body))) = length enc) by lia.
+  rewrite Hmsiz.
+  assert (Hpos : (1 <= length enc)%nat).
+  { unfold enc, enc_varint. cbn [enc_varint_fuel]. destruct (_ <? 128); cbn [length]; lia. }
+  destruct (Nat.eqb (length enc) 1) eqn:E1.
+  - apply Nat.eqb_eq in E1. rewrite <- app_assoc.
+    apply (msg_overwrite_mid pre [x00] enc body). cbn [length]. lia.
+  - apply Nat.eqb_neq in E1.
+    (* the grown buffer: pre ++ [0] ++ body ++ zeros *)
+    set (z := repeat x00 (length enc - 1)).
+    assert (Hz : length z = (length enc - 1)%nat) by (unfold z; apply repeat_length).
+    assert (Hsrc : firstn (length body) (skipn (length pre + 1) (((pre ++ [x00]) ++ body) ++ z)) = body).
+    { rewrite <- !app_assoc. rewrite (app_assoc pre [x00]).
+      replace (length pre + 1)%nat with (length (pre ++ [x00])) by (rewrite app_length; cbn; lia).
+      rewrite skipn_app, Nat.sub_diag, skipn_all. cbn [app skipn].
+      rewrite firstn_app, Nat.sub_diag, firstn_all. cbn [firstn]. apply app_nil_r. }
+    rewrite Hsrc.
+    (* split the grown buffer at pos + msiz: (pre ++ [0] ++ firstn (msiz-1) (body ++ z)) ++ rest *)
+    set (ext := ((pre ++ [x00]) ++ body) ++ z).
+    assert (Hext : length ext = (length pre + 1 + length body + (length enc - 1))%nat).
+    { unfold ext. rewrite !app_length. cbn [length]. lia. }
+    assert (Hmove : msg_overwrite ext (length pre + length enc) body =
+                    firstn (length pre + length enc) ext ++ body).
+    { unfold msg_overwrite. f_equal. rewrite skipn_all2 by lia. apply app_nil_r. }
+    rewrite Hmove.
+    assert (Hfirst : firstn (length pre + length enc) ext = pre ++ firstn (length enc) ([x00] ++ body ++ z)).
+    { unfold ext. rewrite <- !app_assoc. rewrite firstn_app.
+      rewrite firstn_all2 by lia. f_equal. f_equal. lia. }
+    rewrite Hfirst. rewrite <- app_assoc.
+    apply (msg_overwrite_mid pre (firstn (length enc) ([x00] ++ body ++ z)) enc body).
+    rewrite firstn_length. rewrite !app_length. cbn [length]. lia.
+Qed.
